@@ -26,8 +26,13 @@ universe is numbered paths): every file name Pygments maps to a supported langua
 `*.hh`, `BUILD`, `*.pyi`, ...) stays byte-identical while a sibling of another language comes and goes in
 its folder; one file walks through all those names by renames / copies that keep its bytes (other
 extension, other language, other folder); random histories with canonically equivalent and awkward
-names, nested .gitignore files, back-dated writes, the root spelled through a symbolic link or `..`, and
-the three observation points (scan_command, the CLI entry function, `python -m codelimit scan`)."""
+names, nested .gitignore files, back-dated writes, the root named in seven ways with the matching working
+directory (`cache_real.spell_root`), and the three observation points (scan_command, the CLI entry function,
+`python -m codelimit scan`); (9) files that become unreadable (dangling / looping symbolic links, mode 000) after they
+were cached: the from-scratch scan of a copy WITH the unreadable entry is the oracle, "both abort" is an equal outcome.
+(3) the version guard covers every option of report / findings that reads a report file (`report --diff <file>` in
+both formats, through report_command and the CLI entry function) with documents of every version class, damaged and
+missing files, on both sides."""
 import contextlib
 import io
 import json
@@ -42,6 +47,9 @@ ID = "C09"
 TRUSTED = [
     "correspondence harness harness/props/C09.py + harness/cache_real.py (abstraction function from the cache file and the analysis log to the model's numbers; rich output silenced by patching rich, not codelimit)",
     "streams (6)-(8) (trees with arbitrary file names) are judged by the direct oracles only, not by the model: from-scratch scan of a copy of the tree by the same program (scan_command), field-by-field comparison cache_real.full_shape / shape_diff, reuse rule from the analysis log; observation points 1 and 2 run codelimit.__main__.scan in a forked child / harness/cache_cli_worker.py (runpy of the module codelimit) in a fresh interpreter; file-name pools harness/gen/names.py (Pygments lexer tables, Unicode normal forms)",
+    "root spellings (cache_real.spell_root): the scans of a share of the histories get the root as `.` / a relative path / `../name` / a path with `..` / a path through a symbolic link `<root>.lnk`, with os.chdir to the matching working directory (in the pool worker, restored afterwards; in the forked child; cwd= of the fresh interpreter)",
+    "stream (9), files that cannot be read: the oracle is the from-scratch scan of a copy of the tree in which the unreadable path is a dangling / self-referring symbolic link or a file of mode 000 (cache_real.make_unreadable); when that scan aborts, the scan with the cache must abort too (scan_command: with the same exception class), which counts as equal outcomes; the harness runs as %s" % ("root: mode 000 does not make a file unreadable and is replaced by a deleted link target" if os.geteuid() == 0 else "an ordinary user"),
+    "version guard: the CLI entry functions codelimit.__main__.report / findings are called in a forked child with the values typer would pass (Path, ReportFormat); `python -m codelimit report|findings <root>` in a fresh interpreter only without --diff / --format (typer's usage formatter fails on every option with a value under the click of this sandbox)",
     "modelled as parameters, not verified here: _analyze_file (C01-C06), md5, the file selection of scan_path (C11), totals/tree as functions of the file entries (C07), JSON writer/reader round trip (C08)",
 ]
 ASSUMPTIONS = [
@@ -49,6 +57,7 @@ ASSUMPTIONS = [
     "a cache file of the CURRENT version that was not written by a scan is honest (entries are analyses of some content with that checksum); forged same-version entries with a valid checksum are undetectable and outside the property (DESIGN Appendix A)",
     "nothing modifies the tree while a scan runs",
     "a path that is a symbolic link to a regular file outside the tree counts as a file with the target's bytes (the from-scratch oracle scans a copy made of regular files)",
+    "a scan of a tree with an unreadable file may abort (the property speaks about reports that are produced); what is required is that the scan with the cache and the from-scratch scan end the same way",
 ]
 
 INITS = [
@@ -139,8 +148,10 @@ def gen_history(rnd, maxlen, pool=None):
                 files[a], files[b] = files[b], files[a]
         elif r < 0.73:
             ops.append(["e", rnd.randrange(len(cr.EXCL))])
-        elif r < 0.75:
+        elif r < 0.74:
             ops.append(["cfg", rnd.randrange(cr.CFGS)])
+        elif r < 0.75:
+            ops.append(["root", rnd.randrange(cr.SPELLINGS)])
         elif r < 0.84:
             p = rnd.choice([0, 1, 2, 3, 5, 6])
             v = rnd.choice([0, 2, 2, 3, 4])
@@ -336,13 +347,23 @@ def gen_named_history(rnd, maxlen=20):
         elif r < 0.88:
             ops.append(["e", rnd.choice(EXCL_N)])
         elif r < 0.92:
-            ops.append(["root", rnd.randrange(3)])
+            ops.append(["root", rnd.randrange(cr.SPELLINGS)])
         elif r < 0.95:
             ops.append(["cfg", rnd.randrange(cr.CFGS)])
         elif r < 0.97:
             ops += [["ent", 1], ["s"], ["ent", 0]]          # a forked child with two git calls costs 0.1 s
         elif r < 0.977:
             ops += [["ent", 2], ["s"], ["ent", 0]]          # a fresh interpreter costs a second
+        elif r < 0.985:
+            n = rnd.choice(pool); ops.append(["lnk", n, rnd.choice(cids)]); have.add(n)
+        elif r < 0.993 and have:
+            # a file becomes unreadable (every later scan may abort until it is repaired, deleted or excluded)
+            n = rnd.choice(sorted(have))
+            ops += [["brk", n, rnd.randrange(len(cr.UNREADABLE_KINDS))], ["s"]]
+            if rnd.random() < 0.7:
+                ops.append(rnd.choice([["fix", n, rnd.choice(cids)], ["d", n], ["e", [n]]]))
+                if ops[-1][0] == "d":
+                    have.discard(n)
         elif have:
             ops.append(["t", rnd.choice(sorted(have))])
     ops.append(["s"])
@@ -350,26 +371,62 @@ def gen_named_history(rnd, maxlen=20):
             "entry": rnd.choice([0] * 9 + [1]), "ops": ops}
 
 
+def unreadable_histories(thorough, rnd):
+    """stream (9): a file that WAS readable (a regular file or a symbolic link to a shared file outside the tree,
+    scanned or not yet scanned) can no longer be read - the target of the link deleted / renamed / its folder moved, a
+    link to itself, mode 000 - next to a file that stays; two scans, then the file is repaired with the old or another
+    content / deleted / excluded / renamed, two scans.  Names from the Pygments pool (quick: a sample)."""
+    pool = [fn for fn, _ in lang_names()]
+    names = pool if thorough else rnd.sample(pool, 5)
+    hows = range(len(cr.UNREADABLE_KINDS))
+    out = []
+    n = 0
+    for f in names:
+        rel = rnd.choice(["", "lib/"]) + f
+        for how in hows:
+            for start in (0, 1, 2, 3):
+                c1, c2 = 100 + n % 17, 100 + (n + 5) % 17
+                pre = [[["s"]], [["lnk", rel, c1], ["s"]], [], [["s"], ["lnk", rel, c2], ["s"]]][start]
+                repairs = [[["fix", rel, c1]], [["fix", rel, c2]], [["d", rel]], [["e", [rel]]], [["r", rel, "moved/" + f]], [["lnk", rel, c2]]]
+                for rep in (repairs if thorough else [repairs[n % len(repairs)]]):
+                    ops = pre + [["brk", rel, how], ["s"], ["s"]] + rep + [["s"], ["s"]]
+                    out.append({"named": 1, "kind": "unreadable", "files": [[rel, c1], ["keep.py", 100 + (n + 1) % 17]],
+                                "cfg": n % cr.CFGS, "entry": 1 if n % 8 == 7 else 0, "ops": ops})
+                    n += 1
+    return out
+
+
 def named_histories(ctx, rnd):
     out = sibling_histories(ctx.thorough, rnd) + rename_chain_histories(ctx.thorough, rnd)
+    out += unreadable_histories(ctx.thorough, rnd)
     out += [gen_named_history(rnd) for _ in range(ctx.pick(160, 2500))]
     return out
 
 
 def _named_stats(hists, recs):
-    d = {"histories": {}, "scans": 0, "scans_with_reuse": 0, "scans_by_entry": {}, "ops": {}, "file_names": 0, "languages_by_name": {}}
+    d = {"histories": {}, "scans": 0, "scans_with_reuse": 0, "scans_aborted_like_the_from_scratch_scan": 0, "scans_by_entry": {},
+         "scans_by_root_spelling": {}, "ops": {}, "file_names": 0, "languages_by_name": {}}
     names_seen = set()
     for h, r in zip(hists, recs):
         d["histories"][h["kind"]] = d["histories"].get(h["kind"], 0) + 1
         for op in h["ops"]:
             d["ops"][op[0]] = d["ops"].get(op[0], 0) + 1
-            if op[0] in ("w", "wb"):
+            if op[0] in ("w", "wb", "lnk", "fix"):
                 names_seen.add(op[1])
             elif op[0] in ("r", "cp"):
                 names_seen.add(op[2])
         names_seen |= set(n for n, _ in h["files"])
+        k, ks = 0, []
+        for op in h["ops"]:
+            if op[0] == "root":
+                k = op[1] % cr.SPELLINGS
+            elif op[0] == "s":
+                ks.append(k)
+        for k in ks:
+            d["scans_by_root_spelling"][cr.SPELLING_NAMES[k]] = d["scans_by_root_spelling"].get(cr.SPELLING_NAMES[k], 0) + 1
         for o in r["real"]:
             d["scans"] += 1
+            d["scans_aborted_like_the_from_scratch_scan"] += o[5]
             d["scans_with_reuse"] += 1 if o[2] else 0
             d["scans_by_entry"][str(o[4])] = d["scans_by_entry"].get(str(o[4]), 0) + 1
     d["file_names"] = len(names_seen)
@@ -380,51 +437,198 @@ def _named_stats(hists, recs):
 
 # ------------------------------------------------------------------ report / findings version guard
 
-def version_guard_cases():
-    """-> list of (description, model request, real outcome, required outcome)"""
+VCLASSES = (None, 0, 1, 2, 3, 4)        # no file | version key absent | current | other | current + suffix | a number
+DAMAGED = {"junk": b"not json", "empty": b"", "truncated": None, "array": b"[]"}
+
+
+def _report_bytes(v, init):
+    """the cache file a scan of `init` writes, re-labelled with version class v (entries of another version altered) -> (bytes, abstract cache)"""
+    w = cr.new_world(init, 0)
+    try:
+        w.apply(["s"])
+        w.apply(["ca", v, 0, 0, 1000] if v != 1 else ["fmt"])
+        return w.cache_bytes(), w.abstract()
+    finally:
+        w.close()
+
+
+def _readreport_request(a):
+    return "readreport " + ("0" if a[0] == "m" else "1" if a[0] == "j" else
+                            "3 %d %d %s" % (a[1], len(a[2]), " ".join(str(x) for r in a[2] for x in r)))
+
+
+def _outcome(code, err, txt):
+    if err:
+        return "raised " + err
+    if code in (None, 0):
+        return "2"
+    if code == 1 and "version mismatch" in txt:
+        return "1"
+    if code == 1 and "No cached report" in txt:
+        return "0"
+    return "exit %s %s" % (code, txt[:80])
+
+
+def _display(name, root, fmt, diff=None, full=False, via=0):
+    """one call of report / findings -> outcome: "2" displayed, "1" refused (exit code 1, version mismatch message), "0" no
+    report, else a text.  via 0: report_command / findings_command; 1: the functions typer calls for `codelimit report` /
+    `codelimit findings` (codelimit.__main__) in a forked child; 2: `python -m codelimit report|findings ...` in a fresh interpreter"""
     m = cr.cl()
-    out = []
-    for v in (None, 0, 1, 2, 3, 4):
-        w = cr.new_world([(0, 1), (2, 2)], 0)
+    F = m["ReportFormat"]
+    f = F.markdown if fmt == "markdown" else F.text
+    P = m["Path"]
+    if via == 2:
+        import subprocess
+        import tempfile
+        args = [name] + (["--diff", diff] if diff else []) + (["--full"] if full else []) + (["--format", fmt] if fmt != "text" else []) + [root]
+        fd, res = tempfile.mkstemp(prefix="clcli_", suffix=".json")
+        os.close(fd)
+        env = dict(os.environ, VERIF_REPO=common.REPO, CACHE_CLI_RESULT=res, COLUMNS="200")
+        worker = os.path.join(os.path.dirname(os.path.abspath(cr.__file__)), "cache_cli_worker.py")
         try:
-            w.apply(["s"])
-            if v is None:
-                w.apply(["cm"])
-            else:
-                w.apply(["ca", v, 0, 0, 1000] if v != 1 else ["fmt"])
-            a = w.abstract()
-            req = "readreport " + ("0" if a[0] == "m" else "1" if a[0] == "j" else
-                                   "3 %d %d %s" % (a[1], len(a[2]), " ".join(str(x) for r in a[2] for x in r)))
-            for name in ("report", "findings"):
-                buf = io.StringIO()
-                code = None
-                err = None
-                try:
-                    with contextlib.redirect_stdout(buf):
-                        if name == "report":
-                            m["report_command"](m["Path"](w.root), m["ReportFormat"].text)
-                        else:
-                            m["findings_command"](m["Path"](w.root), False, m["ReportFormat"].text)
-                except m["typer"].Exit as e:
-                    code = e.exit_code
-                except Exception as e:  # noqa: BLE001
-                    err = type(e).__name__
-                txt = " ".join(buf.getvalue().split())
-                if err:
-                    real = "raised " + err
-                elif code is None:
-                    real = "2"
-                elif code == 1 and "version mismatch" in txt:
-                    real = "1"
-                elif code == 1 and "No cached report" in txt:
-                    real = "0"
-                else:
-                    real = "exit %s %s" % (code, txt[:80])
-                required = "0" if v is None else "2" if v == 1 else "1"
-                out.append(("%s on cache version class %s" % (name, v), req, real, required))
+            p = subprocess.run([sys.executable, worker] + args, env=env, stdout=subprocess.PIPE, stderr=subprocess.PIPE,
+                               cwd=tempfile.gettempdir(), timeout=300)
+            try:
+                out = json.load(open(res))
+            except (OSError, ValueError):
+                return "the process ended with status %s: %s" % (p.returncode, p.stderr.decode("utf-8", "replace")[-120:])
         finally:
-            w.close()
+            with contextlib.suppress(OSError):
+                os.unlink(res)
+        txt = " ".join(p.stdout.decode("utf-8", "replace").split())
+        e = out["error"]
+        if e is None:
+            return _outcome(None, None, txt)
+        if e.startswith("exit status "):
+            return _outcome(int(e.split()[-1]) if e.split()[-1].isdigit() else e, None, txt)
+        return "raised " + e.split(":")[0]
+
+    def call():
+        buf = io.StringIO()
+        code = err = None
+        try:
+            with contextlib.redirect_stdout(buf):
+                if via == 1:
+                    import codelimit.__main__ as em
+                    if name == "report":
+                        em.report(P(root), P(diff) if diff else None, f)
+                    else:
+                        em.findings(P(root), full, f)
+                elif name == "report":
+                    if diff:
+                        m["report_command"](P(root), f, P(diff))
+                    else:
+                        m["report_command"](P(root), f)
+                else:
+                    m["findings_command"](P(root), full, f)
+        except (m["typer"].Exit, SystemExit) as e:
+            code = getattr(e, "exit_code", getattr(e, "code", None))
+        except Exception as e:  # noqa: BLE001
+            err = type(e).__name__
+        return _outcome(code, err, " ".join(buf.getvalue().split()))
+    if via == 1:
+        return cr._in_child(call) or "the process died"
+    return call()
+
+
+def version_guard_cases(thorough=False):
+    """every way of DISPLAYING a report - report / findings in both formats, findings --full, and every option that reads
+    a report file: `report --diff <file>` - on caches of every version class, with --diff files of every version class,
+    missing and damaged ones; through the command functions, the CLI entry functions and (a few) fresh interpreters
+    -> list of (description, model request(s), real outcome, required outcome, model outcome composer)
+    required: "0" no cache, "1" refused when the cache or the --diff file was written by another version, "2" displayed when
+    all files involved are of the current version, "!2" (anything but displayed) for a missing / damaged --diff file"""
+    import tempfile
+    import shutil
+    out = []
+    docs = {v: _report_bytes(v, [(0, 1), (2, 2)]) for v in VCLASSES if v is not None}
+    saved = {v: _report_bytes(v, [(0, 2), (2, 3), (3, 1)]) for v in VCLASSES if v is not None}     # an older state of the code base
+    base = tempfile.mkdtemp(prefix="clvg_")
+    jobs = []
+    try:
+        diffs = {}
+        for v, (b, a) in saved.items():
+            diffs[v] = (os.path.join(base, "baseline-%s.json" % v), _readreport_request(a))
+            with open(diffs[v][0], "wb") as f:
+                f.write(b)
+        for k, b in DAMAGED.items():
+            diffs[k] = (os.path.join(base, "baseline-%s.json" % k), None)
+            with open(diffs[k][0], "wb") as f:
+                f.write(b if b is not None else saved[1][0][:len(saved[1][0]) // 2])
+        diffs["missing"] = (os.path.join(base, "no-such-report.json"), None)
+        roots = {}
+        for v in VCLASSES:
+            roots[v] = os.path.join(base, "project-%s" % v)
+            os.makedirs(os.path.join(roots[v], ".codelimit_cache"))
+            if v is not None:
+                with open(os.path.join(roots[v], ".codelimit_cache", "codelimit.json"), "wb") as f:
+                    f.write(docs[v][0])
+        for v in VCLASSES:
+            creq = "readreport 0" if v is None else _readreport_request(docs[v][1])
+            base_req = "0" if v is None else "2" if v == 1 else "1"
+            for name, fmt, full in (("report", "text", False), ("report", "markdown", False), ("findings", "text", False),
+                                    ("findings", "markdown", False), ("findings", "text", True)):
+                for via in ((0, 1) if thorough or fmt == "text" else (0,)):
+                    jobs.append(("%s%s --format %s on cache version class %s (via %d)" % (name, " --full" if full else "", fmt, v, via),
+                                 [creq], base_req, (name, roots[v], fmt, None, full, via)))
+            # report --diff <file>: the cache of class v, the file of class d
+            for d in diffs:
+                if v != 1 and not thorough and d not in (1, 2, "junk"):
+                    continue
+                for fmt in ("text", "markdown"):
+                    for via in (0, 1):
+                        if not thorough and via == 1 and (v != 1 or (fmt == "markdown") != (d in (0, 3, "junk"))):
+                            continue
+                        req = base_req if base_req != "2" else "2" if d == 1 else "1" if d in (0, 2, 3, 4) else "!2"
+                        jobs.append(("report --diff <file of version class %s> --format %s on cache version class %s (via %d)" % (d, fmt, v, via),
+                                     [creq, diffs[d][1]], req, ("report", roots[v], fmt, diffs[d][0], False, via)))
+        # fresh interpreters (a second each, run concurrently)
+        # (with the typer / click of this sandbox every option that takes a value - --format, --diff - ends in a TypeError of
+        # typer's usage formatter, so the fresh interpreters run the commands without options; --diff and --format go through
+        # the CLI entry functions, via 1)
+        fresh = [("report", 1, "text", None), ("report", 2, "text", None), ("findings", 2, "text", None), ("findings", 1, "text", None)]
+        if thorough:
+            fresh += [(n, v, "text", None) for n in ("report", "findings") for v in (None, 0, 3, 4)]
+        for name, v, fmt, d in fresh:
+            base_req = "0" if v is None else "2" if v == 1 else "1"
+            req = base_req if d is None or base_req != "2" else "2" if d == 1 else "1" if d in (0, 2, 3, 4) else "!2"
+            jobs.append(("`python -m codelimit %s%s --format %s` on cache version class %s (via 2)" % (
+                name, " --diff <file of version class %s>" % d if d is not None else "", fmt, v),
+                ["readreport 0" if v is None else _readreport_request(docs[v][1])] + ([diffs[d][1]] if d is not None else []), req,
+                (name, roots[v], fmt, diffs[d][0] if d is not None else None, False, 2)))
+        from concurrent.futures import ThreadPoolExecutor
+        slow = [j for j in jobs if j[3][5] == 2]
+        with ThreadPoolExecutor(8) as ex:
+            slow_out = list(ex.map(lambda j: _display(*j[3]), slow))
+        results = {id(j): r for j, r in zip(slow, slow_out)}
+        for j in jobs:
+            real = results[id(j)] if id(j) in results else _display(*j[3])
+            out.append((j[0], j[1], real, j[2]))
+    finally:
+        shutil.rmtree(base, ignore_errors=True)
     return out
+
+
+def version_guard_judge(cases):
+    """-> (disagreements with the model, oracle failures): the model's `readreport` is asked for every report file
+    involved; a display happens when every one of them is displayed ("2"), else the first refusal is the outcome"""
+    dis, fails = [], []
+    reqs = [r for c in cases for r in c[1] if r]
+    replies = dict(zip(reqs, common.run_driver(reqs))) if reqs else {}
+    for what, mreqs, real, required in cases:
+        inp = {"stream": "version-guard", "case": what}
+        if all(mreqs):
+            model = "2"
+            for r in mreqs:
+                if replies[r] != "2":
+                    model = replies[r]
+                    break
+            if model != real:
+                dis.append({"stream": "read_report", "input": inp, "model": model, "impl": real})
+        if (real == "2") if required == "!2" else (real != required):
+            fails.append({"input": inp, "observed": real + (" (2 = the report was displayed)" if real == "2" else ""),
+                          "required": required + " (0 no report, 1 refused with exit code 1 and the version mismatch message because the cache or the --diff file was written by another version, 2 shown, !2 anything but shown)"})
+    return dis, fails
 
 
 # ------------------------------------------------------------------ check
@@ -482,14 +686,10 @@ def correspond(ctx):
             nrecs[i] = r
     dis, fails = cr.judge(recs + rrecs + xrecs + nrecs)
     # version guard of report / findings
-    vg = version_guard_cases()
-    replies = common.run_driver([c[1] for c in vg])
-    for (what, req, real, required), model in zip(vg, replies):
-        inp = {"stream": "version-guard", "case": what}
-        if model != real:
-            dis.append({"stream": "read_report", "input": inp, "model": model, "impl": real})
-        if real != required:
-            fails.append({"input": inp, "observed": real, "required": required + " (0 no report, 1 refused with exit code 1 and the version mismatch message, 2 shown)"})
+    vg = version_guard_cases(ctx.thorough)
+    vdis, vfails = version_guard_judge(vg)
+    dis += vdis
+    fails = vfails + fails
     if not cr.pre()["distinct"]:
         fails.append({"input": {"stream": "universe"}, "observed": "two contents have the same analysis under one path",
                       "required": "distinct measurement results per (path, content)"})
@@ -517,13 +717,16 @@ def correspond(ctx):
     return {
         "evaluations": n_ex + nscans_random + nscans_extra + len(vg) + nst["scans"],
         "distinct_nontrivial": len(nontrivial),
-        "rule": "from %d initial states (no cache / 3 files scanned / 2 files of equal content scanned under an exclusion) every sequence of at most %d operations over a %d-letter alphabet (write 3x3, delete, rename, touch, back-dated write, symbolic link to an old file, swap, exclusions, remove cache, junk, ill-typed, other-version caches with an altered entry and kept / forged checksum, version key removed, old cache restored, entry dropped, truncation, cache dir / marker removal, scan) that ends in a scan: %d scans, each compared with the model and the oracles; %d random histories of length <= 25 on 7 paths (two directories with the same file names) x %d contents (4 plain, 2 with several same-named functions on one line, size ladder %s bytes) x 5 exclusion settings (one with a negated pattern) x 4 configurations (verbose, repository; also switched inside a history) with back-dated writes (10^0..10^9 s), links to old files and directories renamed over each other (%d scans); %d round-trip histories (every content under %d paths: scan, scan, touch, scan, other configuration, scan); %d replacement histories (%s) over ordered pairs of %d ladder contents, scan before and twice after (%d scans in streams 4+5); %d report/findings calls on caches of every version class; non-trivial = histories with a reuse or a cache manipulation; PLUS, judged by the oracles alone (report == from-scratch scan of a copy field by field incl. the shape of identifier and time stamp, reuse only of files whose path and bytes the current-version cache knows), trees with file names from Pygments / Unicode data (%d names that select one of %d languages by extension or whole name): %s; %d scans, by observation point (0 scan_command, 1 the CLI entry function in a forked child, 2 `python -m codelimit scan` in a fresh interpreter) %s" % (
+        "rule": "from %d initial states (no cache / 3 files scanned / 2 files of equal content scanned under an exclusion) every sequence of at most %d operations over a %d-letter alphabet (write 3x3, delete, rename, touch, back-dated write, symbolic link to an old file, swap, exclusions, remove cache, junk, ill-typed, other-version caches with an altered entry and kept / forged checksum, version key removed, old cache restored, entry dropped, truncation, cache dir / marker removal, scan) that ends in a scan: %d scans, each compared with the model and the oracles; %d random histories of length <= 25 on 7 paths (two directories with the same file names) x %d contents (4 plain, 2 with several same-named functions on one line, size ladder %s bytes) x 5 exclusion settings (one with a negated pattern) x 4 configurations (verbose, repository; also switched inside a history) with back-dated writes (10^0..10^9 s), links to old files and directories renamed over each other (%d scans); %d round-trip histories (every content under %d paths: scan, scan, touch, scan, other configuration, scan); %d replacement histories (%s) over ordered pairs of %d ladder contents, scan before and twice after (%d scans in streams 4+5); %d report / findings calls (report and findings in text and markdown, findings --full, and `report --diff <file>` - the option that reads a second report file - with files of every version class, missing, empty, not JSON, truncated, on caches of every version class: 0 no file, key absent, current, other, current + suffix, a number; through report_command / findings_command, the CLI entry functions codelimit.__main__.report / findings in a forked child and `python -m codelimit report|findings` in a fresh interpreter: %s), required: displayed only when EVERY report file involved is of the current version; non-trivial = histories with a reuse or a cache manipulation; PLUS, judged by the oracles alone (report == from-scratch scan of a copy field by field incl. the shape of identifier and time stamp, reuse only of files whose path and bytes the current-version cache knows), trees with file names from Pygments / Unicode data (%d names that select one of %d languages by extension or whole name): %s; %d scans, by observation point (0 scan_command, 1 the CLI entry function in a forked child, 2 `python -m codelimit scan` in a fresh interpreter) %s" % (
             len(INITS), depth, nal, n_ex, nrand, len(set(pool)), sorted(cr.SIZED[c] for c in set(pool) if c in cr.SIZED),
             nscans_random, len(trips), len(set(h["init"][0][0] for h in trips)), len(repl),
             ", ".join("%s %d" % kv for kv in sorted(kinds.items())), len(set(h["init"][-1][1] for h in repl)), nscans_extra, len(vg),
+            json.dumps({k: sum(1 for c in vg if "(via %s)" % k in c[0]) for k in "012"}, sort_keys=True),
             len(lang_names()), len(nst["languages_by_name"]),
-            "%d sibling histories (a file stays byte-identical while a file of another language comes and goes in its folder, every name x every name of another language), %d rename / copy chains through all names (bytes kept across extensions, languages and folders), %d random histories (write, back-dated write, delete, rename, copy, nested .gitignore, exclusions, root spelled through a symbolic link or `..`, configuration and observation point switched; canonically equivalent and awkward names)" % (
-                nst["histories"].get("siblings", 0), nst["histories"].get("rename-chain", 0), nst["histories"].get("random", 0)),
+            "%d sibling histories (a file stays byte-identical while a file of another language comes and goes in its folder, every name x every name of another language), %d rename / copy chains through all names (bytes kept across extensions, languages and folders), %d histories in which a file that was readable (regular or a symbolic link to a shared file outside the tree, cached or not) becomes UNREADABLE (%s) next to a file that stays, two scans, repaired (old / other content, deleted, excluded, renamed, re-linked), two scans - a from-scratch scan of such a tree may abort, then the scan with the cache has to abort the same way (equal outcomes: %d scans), otherwise the reports are equal, %d random histories (write, back-dated write, delete, rename, copy, link to a shared file, file made unreadable, nested .gitignore, exclusions, root named in %d ways - absolute, through a symbolic link, with `..`, `.`, relative, `../name`, relative through a link, with the matching working directory: %s -, configuration and observation point switched; canonically equivalent and awkward names)" % (
+                nst["histories"].get("siblings", 0), nst["histories"].get("rename-chain", 0), nst["histories"].get("unreadable", 0),
+                ", ".join(cr.UNREADABLE_KINDS) + ("; mode 000 has no effect for root and counts as a deleted target" if os.geteuid() == 0 else ""),
+                nst["scans_aborted_like_the_from_scratch_scan"], nst["histories"].get("random", 0), cr.SPELLINGS, json.dumps(nst["scans_by_root_spelling"], sort_keys=True)),
             nst["scans"], json.dumps(nst["scans_by_entry"], sort_keys=True)),
         "samples": [{"request": r["request"], "real_last_scan": str(r["real"][-1])} for r in (recs[5:7] + rrecs[:3] + xrecs[:2])],
         "exhaustive": True,
@@ -535,7 +738,10 @@ def correspond(ctx):
                          "configurations_random": {str(k): sum(1 for r in rrecs if r["input"].get("cfg", 0) == k) for k in range(cr.CFGS)},
                          "oracle_only_histories": sum(1 for r in recs + rrecs + xrecs if r.get("oracle_only")),
                          "forged_histories_skipped": sum(1 for r in recs + rrecs + xrecs if r.get("forged")),
-                         "named_trees": nst},
+                         "named_trees": nst,
+                         "version_guard": {"calls": len(vg), "with_diff_file": sum(1 for c in vg if "--diff" in c[0]),
+                                           "displayed": sum(1 for c in vg if c[2] == "2"), "refused_or_no_report": sum(1 for c in vg if c[2] in ("0", "1")),
+                                           "other_outcomes": sorted(set(c[2] for c in vg if c[2] not in ("0", "1", "2")))}},
         "disagreements": dis[:50], "oracle_failures": fails[:50],
     }
 
@@ -577,9 +783,7 @@ def search(ctx, hints):
     for d in dis[:3]:
         found.append({"input": cr.shrink(d["input"]), "observed": d["impl"], "required": "model and real scan agree"})
     found += _shrunk(fails)[:5]
-    for what, req, real, required in version_guard_cases():
-        if real != required:
-            found.append({"input": {"stream": "version-guard", "case": what}, "observed": real, "required": required})
+    found += version_guard_judge(version_guard_cases(ctx.thorough))[1][:4]
     return found[:10]
 
 
@@ -587,10 +791,10 @@ def replay(payload):
     inp = payload["input"]
     if inp.get("stream") == "version-guard":
         ok = True
-        for what, req, real, required in version_guard_cases():
+        for what, req, real, required in version_guard_cases(True):
             if what == inp["case"]:
                 print("%s -> %s (required %s)" % (what, real, required))
-                ok = ok and real == required
+                ok = ok and ((real != "2") if required == "!2" else real == required)
         return ok
     if "ops" not in inp:
         print("nothing to replay")
